@@ -607,3 +607,39 @@ func zzC18CapabilityGates() {
 func zzNotifyClientSessions(sessions []*ClientSession, method string, params Params, logger *slog.Logger) {
 	zzC18.clientNotified = append(zzC18.clientNotified, sessions)
 }
+
+// zzC18HandshakeEra (D11): a session that went through the initialize handshake is a legacy session whatever revision
+// the client asked for — the handshake answers 2026-07-28 and anything newer or unknown with the latest legacy
+// version — and is treated as one: it is among the recipients of list-changed and resource-updated notifications
+// without subscriptions/listen, and the server may send it requests.
+func zzC18HandshakeEra() {
+	env := &zzC18Env{}
+	zzC18 = env
+	srv := NewServer(&Implementation{Name: "s", Version: "v"}, &ServerOptions{SubscribeHandler: func(context.Context, *SubscribeRequest) error { return nil }, UnsubscribeHandler: func(context.Context, *UnsubscribeRequest) error { return nil }})
+	ss := &ServerSession{server: srv}
+	asked := vStringAmong("asked", "", "1999-01-01", protocolVersion20241105, protocolVersion20250326, protocolVersion20250618, protocolVersion20251125, protocolVersion20260728, "2026-07-29", "2099-01-01")
+	res, err := ss.initialize(context.Background(), &InitializeParams{ProtocolVersion: asked})
+	vAssert(err == nil && res != nil, "C07.handshake-answers")
+	vAssert(res.ProtocolVersion < protocolVersion20260728 && zzIsSupported(res.ProtocolVersion), "C07.handshake-yields-a-supported-legacy-version")
+	srv.sessions = []*ServerSession{ss}
+	ctx := context.WithValue(context.Background(), idContextKey{}, jsonrpc.ID(zzID7()))
+	_, err = srv.subscribe(ctx, &SubscribeRequest{Session: ss, Params: &SubscribeParams{URI: "file:///x"}})
+	vAssert(err == nil, "C18.subscribe.ok")
+	in := func() bool {
+		for _, l := range env.legacy {
+			for _, s := range l {
+				if s == ss {
+					return true
+				}
+			}
+		}
+		return false
+	}
+	srv.notifySessions(notificationToolListChanged)
+	vAssert(in(), "C18.a-handshake-session-is-a-legacy-session-whatever-version-it-asked-for")
+	env.legacy = nil
+	srv.ResourceUpdated(context.Background(), &ResourceUpdatedNotificationParams{URI: "file:///x"})
+	vAssert(in(), "C18.a-handshake-session-is-a-legacy-session-whatever-version-it-asked-for")
+	vAssert(ss.assertServerInitiatedRequestAllowed(methodCreateMessage) == nil, "C18.a-handshake-session-is-a-legacy-session-whatever-version-it-asked-for")
+	vReach("end")
+}
